@@ -106,6 +106,8 @@ LEVEL = {
     "C16": "model_checking",
     "C15": "model_checking",
     "C05": "model_checking",
+    "C03": "model_checking",
+    "C01": "model_checking",
     "C17": "model_checking",
     "C11": "model_checking",
     "C18": "model_checking",
@@ -138,6 +140,14 @@ ASSUMPTIONS = {
     "C15": MIRSYM_ASSUMPTIONS + [
         "text (str/String/Path) is a symbolic sequence of Unicode scalars with UTF-8 byte-length arithmetic; slicing panics exactly when the byte index is not a char boundary",
         "only sys::{trim_prefix,trim_suffix,has,has_prefix,has_suffix} are encoded; parse_paths under C18; the component-level helpers are outside the claim",
+    ],
+    "C03": MIRSYM_ASSUMPTIONS + [
+        "Memfs operations are executed from their MIR with every rivia callee inlined automatically (lib/mirsym/rivia_index.py); std is modelled: Arc/RwLock/guards transparent (single thread), HashMap<PathBuf,_> as an association list with component-wise key equality decided by the solver, HashSet<String> as a list (iteration in insertion order), Box<dyn Write/ReadSeek> dispatched to MemfsFile, MemfsFile's Drop run at MIR drop terminators",
+        "bounded: one call from a fixed small tree with symbolic arguments; histories longer than that, the traversal-based methods (copy, chmod/chown builders, entries, all_*) and concurrency are outside the claim",
+    ],
+    "C01": MIRSYM_ASSUMPTIONS + [
+        "only the second sentence of the statement is decided: a single-target call (mkfile, mkdir_p, mkdir_m, write_all, append_all, remove, symlink, set_cwd, move_p) that reports failure leaves the observable tree unchanged; the comparison with a full reference filesystem over histories is outside the claim",
+        "same execution model and bounds as C03",
     ],
     "C05": MIRSYM_ASSUMPTIONS + [
         "the current directory is a symbolic clean absolute text (Memfs: what the read guard's cwd() returns; Stdfs: what Stdfs::cwd() returns)",
